@@ -785,7 +785,7 @@ def check_C16(sc, v, tier, seed, replay):
         nue16 = 3 if i % 2 == 0 else 2
         scn, text = online.make_scenario(rnd, {"reg": nue16, "pdu": 0, "svc": 0, "rel": 0, "dereg": nue16},
                                          opts={"det": i + seed % 3, "use_opc": i % 2 == 0, "free_msin": True, "lead0": i % 2 == 1,
-                                               "mnc_len": 2 + i % 2, "imsi_len": [15, 13, 14][i % 3]})
+                                               "mnc_len": 2 + i % 2, "imsi_len": [15, 14, 13, 12][i % 4]})      # run 1: three-digit MNC with an even number of MSIN digits
         jobs.append(("pop%02d" % i, scn, text))
     runs = online.run_many(sc, emu, jobs, parallel=8)
     _online_collect(v, runs, "C16", sc)
@@ -1071,7 +1071,7 @@ def check_C18(sc, v, tier, seed, replay):
         # run 0: two-digit MNC "0x", OP only; run 1: three-digit MNC "0xy" (numeric value below 100), OPc and OP both given and different
         s2, t2 = online.make_scenario(rnd, counts, opts={"lead0": i % 2 == 0, "det": [2, 1][i % 2] + 3 * (i // 2), "mnc_len": [2, 3][i % 2],
                                                          "use_opc": i % 2 == 1, "gnb_bits": 32 if i % 2 == 1 else 22 + (seed + 4 * (i + 7)) % 11,
-                                                         "gid_hex": i % 2 == 1})
+                                                         "gid_hex": i % 2 == 1, "imsi_len": [15, 14, 13, 12][i % 4]})
         jobs.append(("wire%02d" % i, s2, t2))
     # the configured IMSI is a number to which the UE index is added: a block of three subscribers that crosses a multiple of 10^9
     # (15 digits, the third UE carries into the tenth digit from the right) and, in the thorough tier, of 10^6 / 10^12
